@@ -351,7 +351,7 @@ def run(ctx):
         raise vlib.Inconclusive("%d replayed scripts hung / diverged from the model's outcome classes / did not reproduce: %s" % (
             len(soft), "; ".join(soft[:3])))
     # vacuity guards: the mechanisms the property names were exercised
-    need = ["iter_reads", "store_reads", "ack_checks", "commits_with_slow_peer", "peer_commit_responses", "failed_opens",
+    need = ["iter_reads", "setbounds_reads", "store_reads", "ack_checks", "commits_with_slow_peer", "peer_commit_responses", "failed_opens",
             "dataonly_writes", "free_channel_frames", "remote_only_writes", "mixed_local_remote_writes", "partial_frames"]
     missing = [k for k in need if stats.get(k, 0) == 0]
     if missing and not ctx.violations:
